@@ -1,5 +1,5 @@
 \* emission: one observation line per (th, bc, c) and one line per generator step
-CONSTANTS R = 6  MaxLevel = 1
+CONSTANTS R = 6  MaxLevel = 2
 ACTION_CONSTRAINT Emit
 INVARIANT EmitState
 INIT Init
